@@ -301,7 +301,7 @@ func genC08(r *rand.Rand, tier string, st *Stats) []Case {
 	for _, s := range c08Seeds {
 		addCase(&cases, seen, st, "seed", s)
 	}
-	nValid := sizes(tier, 60, 900)
+	nValid := sizes(tier, 60, 400)
 	for i := 0; i < nValid; i++ {
 		p := genValid(r)
 		st.addFeatures(p.Features)
@@ -343,10 +343,10 @@ func genC08(r *rand.Rand, tier string, st *Stats) []Case {
 			}
 		}
 	}
-	for i := 0; i < sizes(tier, 700, 12000); i++ {
+	for i := 0; i < sizes(tier, 700, 8000); i++ {
 		addCase(&cases, seen, st, "soup", tokenSoup(r, 1+r.Intn(12)))
 	}
-	for i := 0; i < sizes(tier, 700, 12000); i++ {
+	for i := 0; i < sizes(tier, 700, 8000); i++ {
 		addCase(&cases, seen, st, "procsoup", procSoup(r))
 	}
 	for i := 0; i < sizes(tier, 300, 6000); i++ {
